@@ -250,6 +250,34 @@ def cfield(rng, shape, kind='random'):
     return rng.standard_normal(shape) + 1j * rng.standard_normal(shape)
 
 
+# complex dtypes only: the properties quantify over complex fields; real- or integer-typed arrays are outside what the functions document
+DTYPES = {'torch': [None, 'c128', None, None, 'c128'], 'numpy': [None, 'c64', None, None, 'c64']}
+
+
+def tol_key(inp):
+    """which of a property's two tolerances applies: 'numpy' (double precision throughout) or 'torch' (single precision somewhere)"""
+    return 'numpy' if (inp['api'] == 'numpy' and inp.get('dtype') != 'c64') else 'torch'
+
+
+def single_precision(api, kind):
+    """does the computation run in single precision for this input form?"""
+    return (api == 'torch' and kind != 'c128') or (api == 'numpy' and kind == 'c64')
+
+
+def typed(u, api, kind):
+    """the same field handed over in another documented form: the property quantifies over fields, not over complex64 tensors"""
+    if kind is None: return u
+    if api == 'torch':
+        if kind == 'c128': return torch.tensor(u, dtype=torch.complex128)
+        if kind == 'real32': return torch.tensor(np.real(u), dtype=torch.float32)
+        if kind == 'real64': return torch.tensor(np.real(u), dtype=torch.float64)
+    else:
+        if kind == 'c64': return np.asarray(u).astype(np.complex64)
+        if kind == 'real': return np.ascontiguousarray(np.real(u))
+        if kind == 'int': return np.round(3 * np.real(u)).astype(np.int64)
+    raise ValueError(kind)
+
+
 def t_prop(u, method, z, dx, lam, zero_padding=(False, False, False), aperture=1., kernel=None, scale=1, samples=(2, 2, 1, 1)):
     L = lw()
     k = 2 * math.pi / lam
@@ -260,7 +288,7 @@ def t_prop(u, method, z, dx, lam, zero_padding=(False, False, False), aperture=1
 def n_prop(u, method, z, dx, lam):
     N = nw()
     k = 2 * math.pi / lam
-    return N.propagate_beam(np.asarray(u, dtype=complex), k, z, dx, lam, method)
+    return N.propagate_beam(u if isinstance(u, np.ndarray) else np.asarray(u, dtype=complex), k, z, dx, lam, method)
 
 
 def energy(x):
